@@ -26,6 +26,78 @@ const P14: PS = PS::of(Prop::C14);
 const P15: PS = PS::of(Prop::C15);
 
 const P06: PS = PS::of(Prop::C06);
+const P08: PS = PS::of(Prop::C08);
+
+/// One lazy set-algebra iterator of the library against the mathematical result: stepped with
+/// `next` into a pre-allocated buffer (allocation oracle on), `size_hint` bracketing the items
+/// still to come at every step, no element repeated, and a clone folded from the middle.
+fn alg_check<'a, I: Iterator<Item = &'a u16> + Clone>(cx: &mut Ctx, name: &str, it: I, want: &std::collections::BTreeSet<u16>) {
+    let mut buf: Vec<u16> = Vec::with_capacity(2 * WN + 8);
+    let mut hints: Vec<(usize, Option<usize>)> = Vec::with_capacity(2 * WN + 8);
+    let mid = want.len() / 2;
+    let mut folded_mid = usize::MAX;
+    let r = wl(cx, || {
+        let mut it = it;
+        loop {
+            if buf.len() >= 2 * WN + 4 {
+                break;
+            }
+            hints.push(it.size_hint());
+            if buf.len() == mid {
+                folded_mid = it.clone().fold(0usize, |n, _| n + 1);
+            }
+            match it.next() {
+                Some(x) => buf.push(*x),
+                None => break,
+            }
+        }
+    });
+    cx.bump(S::alg_pairs);
+    if r.is_err() {
+        cx.chk(P08, false, "unexpected-panic", || format!("{name} panicked"));
+        return;
+    }
+    let total = buf.len();
+    let mut sorted = buf.clone();
+    sorted.sort_unstable();
+    let repeated = sorted.windows(2).any(|w| w[0] == w[1]);
+    cx.chk(P08, !repeated, "algebra-repeat", || format!("{name} yields an element more than once ({total} items)"));
+    let wantv: Vec<u16> = want.iter().copied().collect();
+    cx.chk(P08, sorted == wantv, "algebra-result", || {
+        let missing = wantv.iter().find(|x| sorted.binary_search(x).is_err());
+        let extra = sorted.iter().find(|x| wantv.binary_search(x).is_err());
+        format!("{name} yields {total} items, the mathematical result has {} (missing e.g. {missing:?}, extra e.g. {extra:?})", wantv.len())
+    });
+    for (i, (lo, hi)) in hints.iter().enumerate() {
+        let rem = total - i.min(total);
+        let ok = *lo <= rem && hi.map(|h| h >= rem).unwrap_or(true);
+        if !cx.chk(P08, ok, "size_hint", || format!("{name} after {i} of {total} items: size_hint ({lo}, {hi:?}) does not bracket the {rem} items still to come")) {
+            break;
+        }
+    }
+    if total == wantv.len() && mid <= total {
+        cx.chk(P08, folded_mid == total - mid, "fold", || format!("{name}: a clone folded after {mid} of {total} items visited {folded_mid} items"));
+    }
+    cx.bump(S::alg_prefix_checks);
+}
+
+/// All lazy operations and the three predicates for one ordered pair of sets.
+fn alg_pair<const A: usize, const B: usize>(cx: &mut Ctx, x: &Set<u16, A>, y: &Set<u16, B>) {
+    use std::collections::BTreeSet;
+    let mx: BTreeSet<u16> = x.iter().copied().collect();
+    let my: BTreeSet<u16> = y.iter().copied().collect();
+    let tag = format!("Set<_, {A}>({}) vs Set<_, {B}>({})", mx.len(), my.len());
+    alg_check(cx, &format!("union {tag}"), x.union(y), &mx.union(&my).copied().collect());
+    alg_check(cx, &format!("intersection {tag}"), x.intersection(y), &mx.intersection(&my).copied().collect());
+    alg_check(cx, &format!("difference {tag}"), x.difference(y), &mx.difference(&my).copied().collect());
+    alg_check(cx, &format!("symmetric_difference {tag}"), x.symmetric_difference(y), &mx.symmetric_difference(&my).copied().collect());
+    let p = wl(cx, || (x.is_subset(y), x.is_superset(y), x.is_disjoint(y)));
+    let want = (mx.is_subset(&my), mx.is_superset(&my), mx.is_disjoint(&my));
+    cx.chk(P08, p == Ok(want), "predicates", || format!("{tag}: (is_subset, is_superset, is_disjoint) = {p:?}, mathematically {want:?}"));
+    if !(mx.is_disjoint(&my) || mx == my || mx.is_subset(&my) || my.is_subset(&mx)) {
+        cx.bump(S::alg_proper_overlap);
+    }
+}
 
 /// a library call; when it returns normally it must not have asked the allocator for anything
 /// (payloads are plain integers)
@@ -94,8 +166,14 @@ impl W<'_> {
         let ki = ((o[1] as usize) << 8 | o[2] as usize) % U;
         let k = key(ki);
         let v = (self.step << 8) | o[3] as u32;
-        let kind = scale(o[0], 15);
         let cx = &mut *self.cx;
+        let kind = match cx.armed {
+            // the campaigns of C08 / C06 spend half / a quarter of their operations on the
+            // set-algebra and fat-container operations
+            Prop::C08 if o[0] & 1 == 0 => 12,
+            Prop::C06 if o[0] & 3 == 0 => 14,
+            _ => scale(o[0], 15),
+        };
         cx.bump(S::ops);
         let present = self.model.get(&k).copied();
         let full = self.model.len() >= WN;
@@ -286,6 +364,68 @@ impl W<'_> {
                     ok
                 });
                 cx.chk(P07.union(P01), ok == Ok(true), "set", || format!("Set<u16, 300> with {} elements: contains / remove / iter of element {k} disagree with the model", self.model.len()));
+            }
+            12 => {
+                // set algebra between a set of more than 255 elements and sets of 5 / 64 / 70 slots
+                // (both operand orders): bit masks and index types sized by the wrong operand
+                cx.cur_op = "algebra";
+                let mut big: Box<Set<u16, WN>> = Box::new(Set::new());
+                for k in self.model.keys() {
+                    big.insert(*k);
+                }
+                let mut s5: Set<u16, 5> = Set::new();
+                let mut s64: Box<Set<u16, 64>> = Box::new(Set::new());
+                let mut s70: Box<Set<u16, 70>> = Box::new(Set::new());
+                let stride = 1 + o[3] as usize % 4;
+                for j in 0..70usize {
+                    // a mixture of present and absent elements, starting anywhere in the key space
+                    let kk = if j % 5 == 4 { key(ki + j * stride) + 3 } else { key(ki + j * stride) };
+                    if j < 5 {
+                        s5.insert(kk);
+                    }
+                    if j < 64 {
+                        s64.insert(kk);
+                    }
+                    s70.insert(kk);
+                }
+                match o[3] >> 5 {
+                    0 => alg_pair(cx, &*big, &s5),
+                    1 => alg_pair(cx, &s5, &*big),
+                    2 | 3 => alg_pair(cx, &*big, &*s64),
+                    4 => alg_pair(cx, &*s64, &*big),
+                    5 => alg_pair(cx, &*big, &*s70),
+                    6 => alg_pair(cx, &*s70, &*big),
+                    _ => alg_pair(cx, &*s64, &*s70),
+                }
+            }
+            14 => {
+                // the same entries in a container value of more than 4096 bytes (72-byte pairs):
+                // clone, comparison, iteration and draining still take nothing from the allocator
+                cx.cur_op = "clone";
+                let mut fat: Box<Map<u16, [u64; 8], WN>> = Box::new(Map::new());
+                for (k, v) in self.model.iter() {
+                    fat.insert(*k, [*v as u64; 8]);
+                }
+                let r = wl(cx, || {
+                    let c = Map::clone(&fat);
+                    let same = c == *fat && c.len() == fat.len();
+                    let n = c.iter().count() + c.keys().len() + c.values().len();
+                    let mut c = c;
+                    let drained = c.drain().count();
+                    same && n == 3 * fat.len() && drained == fat.len() && c.is_empty()
+                });
+                cx.chk(P15.union(P14).union(P10), r == Ok(true), "fat-clone", || format!("clone / == / iteration / drain of a {}-byte map of {} entries: {r:?}", std::mem::size_of::<Map<u16, [u64; 8], WN>>(), self.model.len()));
+                let r2 = wl(cx, || {
+                    let mut n = 0usize;
+                    for (k, v) in Map::clone(&fat) {
+                        if v[7] as u32 as u64 == v[0] && k > 0 {
+                            n += 1;
+                        }
+                    }
+                    n
+                });
+                cx.chk(P10, r2 == Ok(self.model.len()), "fat-into-iter", || format!("into_iter over a cloned fat map yields {r2:?} entries, expected {}", self.model.len()));
+                cx.bump(S::clones);
             }
             _ => {
                 cx.cur_op = "walk";
